@@ -509,6 +509,7 @@ def build(modules, work_dir, profile, pdlc, target_dir, *, jobs=None, pdlc_timeo
             report["uncompilable_modules"][n] = verdict["error"]
             good.remove(n)
     with _target_lock(target_dir):
+        report["timings"]["lock_wait_s"] = round(time.monotonic() - t_cargo, 2)
         while True:
             _write_crate(work_dir, gens, good)
             r = _cargo(work_dir, target_dir, "build", profile, cargo_timeout_s)
